@@ -63,6 +63,10 @@ int preemptions = 0, bound = 1 << 30, spurious = 0, spurious_bound = 1;
 bool deadlock = false;
 string deadlock_desc;
 long sched_points = 0;
+// --fine: also yield *before* the effect of unlock / cond_wait / signal / broadcast and *after* a lock is acquired, so that
+// code between two hooked calls (a predicate evaluated just before cond_wait, a flag stored just after unlock) can be
+// separated from them by another thread
+bool g_fine = false;
 
 // reporting state (a deadlock is reported from whichever thread detects it: the run cannot be unwound)
 const char* g_out = "/dev/stdout";
@@ -231,6 +235,11 @@ h_mutex_lock(pthread_mutex_t* m)
 {
   pthread_mutex_lock(&big);
   acquire(m);
+  if (g_fine)
+    {
+      reschedule(true);
+      wait_my_turn();
+    }
   pthread_mutex_unlock(&big);
   return 0;
 }
@@ -239,6 +248,11 @@ int
 h_mutex_unlock(pthread_mutex_t* m)
 {
   pthread_mutex_lock(&big);
+  if (g_fine)
+    {
+      reschedule(true);
+      wait_my_turn();
+    }
   owner[m] = -1;
   reschedule(true);
   wait_my_turn();
@@ -251,6 +265,11 @@ h_cond_wait(pthread_cond_t* c, pthread_mutex_t* m)
 {
   pthread_mutex_lock(&big);
   thr* me = threads[self_id];
+  if (g_fine)
+    {
+      reschedule(true);
+      wait_my_turn();
+    }
   owner[m] = -1;
   me->state = WAIT_COND;
   me->cond = c;
@@ -275,6 +294,11 @@ int
 h_cond_signal(pthread_cond_t* c)
 {
   pthread_mutex_lock(&big);
+  if (g_fine)
+    {
+      reschedule(true);
+      wait_my_turn();
+    }
   vector<thr*> w;
   for (size_t i = 0; i < threads.size(); ++i)
     if (threads[i]->state == WAIT_COND && threads[i]->cond == c)
@@ -291,6 +315,11 @@ int
 h_cond_broadcast(pthread_cond_t* c)
 {
   pthread_mutex_lock(&big);
+  if (g_fine)
+    {
+      reschedule(true);
+      wait_my_turn();
+    }
   for (size_t i = 0; i < threads.size(); ++i)
     if (threads[i]->state == WAIT_COND && threads[i]->cond == c)
       wake(threads[i]);
@@ -500,6 +529,7 @@ main(int argc, char** argv)
   h.create = h_create;
   h.join = h_join;
   g_out = args.get("--out", "/dev/stdout");
+  g_fine = args.has("--fine");
   long& runs = g_runs;
   long& nontrivial = g_nontrivial;
   string failure, witness;
